@@ -66,7 +66,7 @@ type SchedD struct {
 	DelaySteps int    `json:"delay_steps,omitempty"`
 	Enqueuers  int    `json:"enqueuers,omitempty"`
 	Barrier    bool   `json:"barrier,omitempty"`  // bodies of non-failing jobs meet at an N-party barrier
-	CtxKind    int    `json:"ctx_kind,omitempty"` // 1: the scheduler's context is a user-defined context.Context type
+	CtxKind    int    `json:"ctx_kind,omitempty"` // 1: the scheduler's context is a user-defined context.Context type; 2: cancelled with a cause
 	// WaitCtx: the context given to Wait. 0: the one the jobs are enqueued
 	// with; 1: a separate context that stays live; 2: a separate context that an
 	// outside party cancels after WaitDelay of its own steps.
@@ -209,6 +209,15 @@ func Generate(rng *rand.Rand, prop, tier string, gomaxprocs int) *Desc {
 			}
 			nj = s.N + rng.Intn(s.N)
 		}
+		// hub: one early job that most later jobs depend on (a consumer list longer than any
+		// small fixed-size buffer), next to ordinary neighbours with consumers of their own
+		hub := -1
+		if !wide && prop != "C03scale" && rng.Intn(10) == 0 {
+			hub = rng.Intn(3)
+			if nj < hub+11 {
+				nj = hub + 11 + rng.Intn(8)
+			}
+		}
 		// emitter
 		if rng.Intn(3) == 0 {
 			s.Emitter = true
@@ -300,8 +309,10 @@ func Generate(rng *rand.Rand, prop, tier string, gomaxprocs int) *Desc {
 		if s.Barrier {
 			s.CancelMode = CancelNone
 		}
-		if rng.Intn(6) == 0 && s.CancelMode != CancelDeadline {
+		if k := rng.Intn(9); k == 0 && s.CancelMode != CancelDeadline {
 			s.CtxKind = 1
+		} else if k == 1 {
+			s.CtxKind = 2
 		}
 		s.SharedErr = rng.Intn(6) == 0
 		if rng.Intn(8) == 0 && !s.Barrier && prop != "C03scale" {
@@ -314,11 +325,17 @@ func Generate(rng *rand.Rand, prop, tier string, gomaxprocs int) *Desc {
 		inJobCancel := (s.CancelMode == CancelNone && !s.Barrier && prop != "C03scale") && (prop == "C09" || rng.Intn(10) == 0)
 		for j := 0; j < nj; j++ {
 			var jd JobD
-			if s.Enqueuers > 0 {
+			if s.Enqueuers > 0 && j != hub {
 				jd.Enq = rng.Intn(s.Enqueuers + 1)
 			}
 			if !s.Barrier {
+				if hub >= 0 && j > hub && rng.Intn(5) != 0 {
+					jd.Deps = append(jd.Deps, hub)
+				}
 				for k := 0; k < j && len(jd.Deps) < 8; k++ {
+					if k == hub && len(jd.Deps) > 0 && jd.Deps[0] == hub && rng.Intn(15) != 0 {
+						continue
+					}
 					// dependencies must have been returned by Enqueue before: same enqueuer, or the
 					// caller's own earlier jobs (enqueuers start after the caller's jobs are in).
 					if s.Jobs[k].Enq != jd.Enq && s.Jobs[k].Enq != 0 {
